@@ -1,4 +1,4 @@
-\* non-vacuity: broken mechanism update_in_place must be rejected
+\* non-vacuity: broken mechanism run_closes_any (the default closing date of .run applied to PRINT as well) must be rejected
 CONSTANTS
   Headers <- Empty
   Pool <- Empty
@@ -10,10 +10,10 @@ CONSTANTS
   KnownStrings <- NoStrings
   KnownPats <- NoStrings
   Variant = "shipped"
-  NConn = 2
+  NConn = 1
   MaxSteps = 3
-  Routes = {"typed"}
-  Mech = "update_in_place"
+  Routes = {"typed", "run"}
+  Mech = "run_closes_any"
 INIT SInit
 NEXT SNext
 INVARIANTS Independent
